@@ -579,10 +579,133 @@ impl Property for FlagSubVsHyphenPositional {
     }
 }
 
+// ------------------------------------------------------------ what follows a short flag subcommand inside its group
+
+/// `-S<rest>`: the rest of the group belongs to the subcommand's level, all of it.
+#[derive(Serialize, Deserialize, Hash, Clone, Debug)]
+pub struct TailCase {
+    /// the subcommand is named through its short flag alias
+    pub via_alias: bool,
+    /// flags of the sub level written after the letter (indices into y, v, q)
+    pub flags: Vec<u8>,
+    /// bytes after the flags: nothing, an undefined letter, or bytes that are not UTF-8
+    #[serde(with = "crate::util::bytes_hex")]
+    pub tail: Vec<u8>,
+    /// further tokens of the sub level
+    pub more: Vec<String>,
+}
+
+pub struct FlagClusterTail;
+
+impl Property for FlagClusterTail {
+    type Case = TailCase;
+    fn name(&self) -> &'static str {
+        "flag-subcommand-group-tail"
+    }
+    fn rule(&self) -> String {
+        "prog with a subcommand `sync` (short flag -S, short flag alias -Y) whose level defines the flags -y, -v (Count), -q x lines \
+         `prog -S<flags><tail> [more flags]` where <flags> are 0-3 letters of the sub level and <tail> is empty, an undefined letter, or \
+         1-2 bytes that are not UTF-8. Oracle: the chain is [sync] and the flags are exactly the written ones when the tail is empty; \
+         with any other tail the line is rejected (the rest of the group is parsed against the subcommand's level, every byte of it): \
+         never accepted with the tail dropped. Non-trivial: a non-empty tail, or flags after the letter."
+            .into()
+    }
+    fn budget(&self, tier: Tier) -> Budget {
+        Budget { cases: tier.pick(50_000, 500_000), tape_len: 32 }
+    }
+    fn decode(&self, t: &mut Tape<'_>) -> TailCase {
+        let via_alias = t.chance(1, 3);
+        let flags = (0..t.range(0, 3)).map(|_| t.choose(3) as u8).collect();
+        let tail = match t.weighted(&[3, 2, 2, 1]) {
+            0 => vec![],
+            1 => vec![*t.pick(&[b'z', b'Z', b'0'])],
+            2 => vec![*t.pick(&[0xff, 0x80, 0xc3])],
+            _ => vec![0xff, 0xfe],
+        };
+        let more = (0..t.range(0, 2)).map(|_| (*t.pick(&["-y", "-v", "-q", "-vv"])).to_owned()).collect();
+        TailCase { via_alias, flags, tail, more }
+    }
+    fn run(&self, case: &TailCase, ctx: &mut Ctx) -> Verdict {
+        use clap::{Arg, ArgAction, Command};
+        let cmd = Command::new("prog").subcommand(
+            Command::new("sync")
+                .short_flag('S')
+                .short_flag_alias('Y')
+                .arg(Arg::new("y").short('y').action(ArgAction::Count))
+                .arg(Arg::new("v").short('v').action(ArgAction::Count))
+                .arg(Arg::new("q").short('q').action(ArgAction::Count)),
+        );
+        let letters = [b'y', b'v', b'q'];
+        let mut group = vec![b'-', if case.via_alias { b'Y' } else { b'S' }];
+        group.extend(case.flags.iter().map(|i| letters[*i as usize % 3]));
+        group.extend(case.tail.iter().copied());
+        let mut argv = vec![os(b"prog"), os(&group)];
+        argv.extend(case.more.iter().map(|s| os(s.as_bytes())));
+        let mut shown: Vec<String> = vec!["prog".to_owned(), show_bytes(&group)];
+        shown.extend(case.more.iter().cloned());
+        let res = match catch(|| cmd.try_get_matches_from(argv.clone())) {
+            Err(p) => return Verdict::Fail(Failure::from_panic(&p)),
+            Ok(r) => r,
+        };
+        let mut want = [0u64; 3];
+        for i in &case.flags {
+            want[*i as usize % 3] += 1;
+        }
+        for tok in &case.more {
+            for c in tok.bytes().skip(1) {
+                if let Some(i) = letters.iter().position(|l| *l == c) {
+                    want[i] += 1;
+                }
+            }
+        }
+        match res {
+            Ok(m) => {
+                ensure!(
+                    case.tail.is_empty(),
+                    "dispatch:group-tail-dropped",
+                    "argv {:?}: the group holds {:?} after the sub level's flags, which that level does not define, yet the line is accepted (chain {:?})",
+                    shown,
+                    show_bytes(&case.tail),
+                    m.subcommand_name()
+                );
+                let Some(("sync", sm)) = m.subcommand() else {
+                    return Verdict::fail("dispatch:wrong-chain", format!("argv {:?}: chain {:?}, expected [sync]", shown, m.subcommand_name()));
+                };
+                for (i, id) in ["y", "v", "q"].iter().enumerate() {
+                    let got = sm.get_count(id) as u64;
+                    ensure!(
+                        got == want[i],
+                        "dispatch:group-flag-count",
+                        "argv {:?}: -{} counted {} times at the sync level, written {} times",
+                        shown,
+                        id,
+                        got,
+                        want[i]
+                    );
+                }
+            }
+            Err(e) => {
+                ensure!(
+                    !case.tail.is_empty(),
+                    "dispatch:valid-group-rejected",
+                    "argv {:?}: every letter after the flag subcommand is a flag of its level, but clap says: {}",
+                    shown,
+                    e.to_string().lines().next().unwrap_or("")
+                );
+                ctx.label("tail-rejected");
+            }
+        }
+        if !case.tail.is_empty() || !case.flags.is_empty() {
+            ctx.nontrivial();
+        }
+        Verdict::Pass
+    }
+}
+
 pub fn check() -> Check {
     Check {
         id: "C09",
-        parts: vec![Box::new(Gen(Dispatch)), Box::new(Gen(FlagSubVsHyphenPositional))],
+        parts: vec![Box::new(Gen(Dispatch)), Box::new(Gen(FlagSubVsHyphenPositional)), Box::new(Gen(FlagClusterTail))],
         assumptions: vec![
             "global ids are unique in the tree (a descendant defining its own argument under a global's id is a configuration the \
              documentation does not describe)"
